@@ -666,7 +666,7 @@ int main(int argc, char *argv[])
             was_pc_set = true;
           }
 
-          assemble_code(util_context, cpu_name, code.value(), org);
+          assemble_code(util_context, util_context.cpu_name, code.value(), org);
           code.clear();
         }
 
